@@ -55,6 +55,9 @@ pub enum RootDesc {
     Dfrc(u32, u32),
     /// raw builder state given to `BoardBuilder::build`
     Raw(Pos),
+    /// a curated game line: `double_chess960_startpos(w, b)` followed by these moves (library
+    /// encoding), each played with `play_unchecked` — a position provably reached by legal play
+    Line(u32, u32, Vec<String>),
 }
 
 pub fn raw_json(p: &Pos) -> Value {
@@ -90,6 +93,7 @@ impl RootDesc {
             RootDesc::Fen(s) => json!({ "fen": s }),
             RootDesc::Dfrc(w, b) => json!({ "dfrc": [w, b] }),
             RootDesc::Raw(p) => json!({ "raw": raw_json(p) }),
+            RootDesc::Line(w, b, ms) => json!({ "line": {"start": [w, b], "moves": ms} }),
         }
     }
     pub fn from_json(v: &Value) -> Option<RootDesc> {
@@ -102,6 +106,11 @@ impl RootDesc {
         if let Some(r) = v.get("raw") {
             return Some(RootDesc::Raw(raw_from_json(r)?));
         }
+        if let Some(l) = v.get("line") {
+            let st = l.get("start")?.as_array()?;
+            let ms = l.get("moves")?.as_array()?.iter().filter_map(|m| m.as_str().map(|x| x.to_string())).collect();
+            return Some(RootDesc::Line(st.first()?.as_u64()? as u32, st.get(1)?.as_u64()? as u32, ms));
+        }
         None
     }
     /// construct the board exactly the way the universe did
@@ -111,6 +120,21 @@ impl RootDesc {
                 .map_err(|e| format!("root FEN rejected: {} ({})", s, e)),
             RootDesc::Dfrc(w, b) => guarded(|| Board::double_chess960_startpos(*w, *b)),
             RootDesc::Raw(p) => build(p)?.map_err(|e| format!("root builder state rejected: {}", e)),
+            RootDesc::Line(w, b, ms) => {
+                let mut bd = guarded(|| Board::double_chess960_startpos(*w, *b))?;
+                for m in ms {
+                    let act = Act::parse(m).ok_or(format!("bad move text {} in line", m))?;
+                    // the line must be legal by the reference model (it is what makes the position
+                    // provably reachable)
+                    if let Act::Move(mv) = act {
+                        if !alpha(&bd).legal_moves().contains(&mv) {
+                            return Err(format!("curated line contains the illegal move {}", m));
+                        }
+                    }
+                    bd = apply(&bd, act)?;
+                }
+                Ok(bd)
+            }
         }
     }
 }
